@@ -436,7 +436,7 @@ def run_part2(case, ob, site):
 # ------------------------------------------------------------------------------------------
 # part 3: block-level faults
 
-FAULTS = ['second_driver', 'undriven', 'undriven_register', 'undriven_output', 'reg_driven_by_gate', 'cycle_into_sync_mem', 'unconnected', 'foreign_wire', 'duplicate_name', 'stale_by_name', 'missing_by_name',
+FAULTS = ['second_driver', 'undriven', 'undriven_register', 'undriven_output', 'reg_driven_by_gate', 'cycle_into_sync_mem', 'unconnected', 'foreign_wire', 'foreign_dest', 'duplicate_name', 'stale_by_name', 'missing_by_name',
           'sync_mem_comb_addr', 'comb_cycle', 'isolated_ring', 'mem_cycle', 'bad_arity', 'bad_width']
 CYCLES = ('comb_cycle', 'isolated_ring', 'mem_cycle', 'cycle_into_sync_mem')   # detected by iteration (simulator construction), not by sanity_check alone
 
@@ -459,8 +459,9 @@ def part3_cases(tier, seed):
 # how the checks are invoked: 'fresh' = on the faulty block, which is also the working block; 'after_check' = the same block
 # object was checked and simulated while still well formed, then the fault is injected, then it is checked again (a history:
 # anything remembered from the first check must not mask the fault); 'foreign_wb' = the faulty block is passed as block= while a
-# different, well-formed block is the working block
-MODES = ['fresh', 'after_check', 'foreign_wb']
+# different, well-formed block is the working block; 'post_synth' = the design is synthesized first and the fault is injected
+# into the PostSynthBlock (the documented Simulation(block=<synthesized block>) form)
+MODES = ['fresh', 'after_check', 'foreign_wb', 'post_synth']
 
 
 def other_block():
@@ -560,6 +561,12 @@ def inject(block, fault, fsite):
             fw = pyrtl.Input(n.args[0].bitwidth, 'vf_foreign', block=other)
             block.logic.remove(n)
             block.logic.add(LogicNet(n.op, n.op_param, (fw,), n.dests))
+        elif fault == 'foreign_dest':
+            # the DESTINATION of a net is owned by another Block although it is registered in this one
+            cand = [n for n in nets if n.dests and isinstance(n.dests[0], pyrtl.Output)]
+            if fsite >= len(cand):
+                return False
+            cand[fsite].dests[0]._block = Block()
         elif fault == 'duplicate_name':
             if fsite + 1 >= len(wires):
                 return False
@@ -580,9 +587,9 @@ def inject(block, fault, fsite):
             ins = [w for w in wires if isinstance(w, pyrtl.Input)]
             if not ins:
                 return False
-            m = pyrtl.MemBlock(bitwidth=2, addrwidth=ins[0].bitwidth + 1, name='vf_syncmem', asynchronous=False)
+            m = pyrtl.MemBlock(bitwidth=2, addrwidth=ins[0].bitwidth, name='vf_syncmem', asynchronous=False)
             o = pyrtl.Output(2, 'vf_so')
-            o <<= m[ins[0] + 1]
+            o <<= m[~ins[0]]       # an op every block kind accepts (PostSynthBlock has no '+')
         elif fault == 'comb_cycle':
             cand = [n for n in inner if n.op in '&|^' ]
             if fsite >= len(cand):
@@ -672,6 +679,9 @@ def _acceptors(block, res):
 
 def run_part3(case, ob, site):
     block = designs.build(case)
+    if case.get('mode') == 'post_synth':
+        with pyrtl.set_working_block(block, no_sanity_check=True):
+            block = pyrtl.synthesize(update_working_block=False, block=block)
     if case['fault'] is None:
         res = checked(case, block)
         for k, v in res.items():
@@ -719,6 +729,9 @@ def replay(cex):
     c = cex['case']
     if c['part'] == 3:
         block = designs.build(c)
+        if c.get('mode') == 'post_synth':
+            with pyrtl.set_working_block(block, no_sanity_check=True):
+                block = pyrtl.synthesize(update_working_block=False, block=block)
         if c['fault'] is None:
             res = checked(c, block)
             bad = {k: v for k, v in res.items() if v is not None}
